@@ -108,21 +108,22 @@ Solver(s) == IF IsLb(s.o.api) THEN (IF s.o.sparse THEN "eigsh" ELSE "eigh")
 ReducedRun(s) == s.o.api \in FreqApis /\ ~s.o.sparse /\ s.o.reduced
 
 (* ------------------------------- ChooseK ------------------------------- *)
-(* lb / freq / Panel.freq: k = min(num_eigvalues, n-2); Panel.lb and ConeCyl.lb pass num_eigvalues unchanged *)
+(* lb / freq / Panel.freq: k = min(num_eigvalues, n-2); Panel.lb and ConeCyl.lb pass num_eigvalues unchanged
+   (the number of pairs is not constrained by the property; what it demands is that the solver is never
+   asked for more than it can give, see AskK) *)
 DoChooseK(s) ==
-    LET capped == Min2(s.o.num, s.p.n - 2)
-        k == IF s.o.api \in {"panel_lb", "conecyl_lb"} /\ D(s, KF_C05_PanelNumNotCapped) THEN s.o.num ELSE capped
-    IN [s EXCEPT !.k = k,
-                 !.path = IF s.o.sparse THEN "sparse" ELSE "dense",
-                 !.pc = IF IsLb(s.o.api) /\ s.o.sparse THEN "try" ELSE "remove"]
+    [s EXCEPT !.k = IF s.o.api \in {"panel_lb", "conecyl_lb"} THEN s.o.num ELSE Min2(s.o.num, s.p.n - 2),
+              !.path = IF s.o.sparse THEN "sparse" ELSE "dense",
+              !.pc = IF IsLb(s.o.api) /\ s.o.sparse THEN "try" ELSE "remove"]
 
 (* ------------------------------ TrySparse ------------------------------ *)
-(* first eigsh on the full matrices: splu(KG - K) fails iff a null row/column exists, ARPACK refuses k >= n;
-   either exception is swallowed by `except Exception` and the fallback is taken *)
+(* first eigsh on the full matrices: splu(KG - K) fails iff a null row/column exists, ARPACK refuses k >= n
+   (today, Panel.lb / ConeCyl.lb); either exception is swallowed by `except Exception` and the fallback is taken *)
 DoTrySparse(s) ==
     LET n == s.p.n
         all == AscSeq(1..n, n)
-    IN IF Act(s.p) # 1..n \/ s.k >= n
+        refused == s.o.api \in {"panel_lb", "conecyl_lb"} /\ D(s, KF_C05_PanelNumNotCapped) /\ s.k >= n
+    IN IF Act(s.p) # 1..n \/ refused
        THEN [s EXCEPT !.path = "sparseFallback", !.pc = "remove"]
        ELSE [s EXCEPT !.used = all, !.rrows = all, !.pc = "solve"]
 
